@@ -74,6 +74,25 @@ def repeated_diff(spec):
     return False
 
 
+def neg_left_misplaced(spec):
+    """Input-class flag of finding tensordot-negative-left-axes: the left axes contain negative numbers AND re-inserting the
+    contracted axes into the per-block result at those raw (un-normalised) positions puts them somewhere else than at the
+    normalised positions (e.g. axes=([-1],[0]) on a 2-d lhs happens to land correctly, ([-3,-1],[0,1]) on a 3-d lhs does not)."""
+    if spec["op"] != "tensordot" or isinstance(spec["axes"], int):
+        return False
+    left = [int(v) for v in np.atleast_1d(ax(spec["axes"])[0])]
+    if not any(v < 0 for v in left):
+        return False
+    la, lb = (len(a["shape"]) for a in spec["arrays"])
+    out = []
+    for axes0 in (left, [v % la for v in left]):
+        ind = list(range(la + lb - 2 * len(left)))
+        for a in sorted(axes0):
+            ind.insert(a, None)
+        out.append(ind)
+    return out[0] != out[1]
+
+
 def prod_check(spec):
     import dask.array as da
 
@@ -90,7 +109,7 @@ def prod_check(spec):
                repeated_index_diff_chunks=repeated_diff(spec),
                # contraction of sub-64-bit integers goes through Array.sum, which widens (NumPy's tensordot/einsum do not)
                small_int=all(np.dtype(a["dtype"]).kind in "iub" and np.dtype(a["dtype"]).itemsize < 8 for a in spec["arrays"]),
-               negative_left_axes=spec["op"] == "tensordot" and not isinstance(spec["axes"], int) and any(v < 0 for v in np.atleast_1d(spec["axes"][0])))
+               negative_left_axes_misplaced=neg_left_misplaced(spec))
     with impl(spec["op"], **sig), np.errstate(all="ignore"):
         r = call(da, spec, ds)
         ensure(isinstance(r, da.Array), f"{spec['op']} returned {type(r).__name__}", "not-dask", **sig)
